@@ -467,7 +467,7 @@ fn apply_trigger(t: &mut Target, g: &Trigger) -> Option<usize> {
 		(Target::Cert(c), TriggerClass::Oid) => match g.site % 4 {
 			0 => c.spec.custom_exts.push(CustomExtSpec { oid: g.oid.clone(), critical: false, content: Hex(vec![5, 0]), acme: false }),
 			1 => c.spec.ekus.push(EkuSpec::Other(g.oid.clone())),
-			2 => c.spec.dn.0.push((DnTypeSpec::Custom(g.oid.clone()), DnValueSpec { kind: StrKind::Utf8, text: "x".into() })),
+			2 => c.spec.dn.0.push((DnTypeSpec::Custom(g.oid.clone()), DnValueSpec::new(StrKind::Utf8, "x"))),
 			_ => c.spec.sans.push(SanSpec::OtherName(g.oid.clone(), "x".into())),
 		},
 		(Target::Cert(c), TriggerClass::Year) => {
@@ -480,7 +480,7 @@ fn apply_trigger(t: &mut Target, g: &Trigger) -> Option<usize> {
 		(Target::Csr(c), TriggerClass::Oid) => match g.site % 5 {
 			0 => c.spec.custom_exts.push(CustomExtSpec { oid: g.oid.clone(), critical: false, content: Hex(vec![5, 0]), acme: false }),
 			1 => c.spec.ekus.push(EkuSpec::Other(g.oid.clone())),
-			2 => c.spec.dn.0.push((DnTypeSpec::Custom(g.oid.clone()), DnValueSpec { kind: StrKind::Utf8, text: "x".into() })),
+			2 => c.spec.dn.0.push((DnTypeSpec::Custom(g.oid.clone()), DnValueSpec::new(StrKind::Utf8, "x"))),
 			3 => c.spec.sans.push(SanSpec::OtherName(g.oid.clone(), "x".into())),
 			_ => bad_attr = Some(g.site as usize % BAD_STATIC_OIDS.len()),
 		},
@@ -490,7 +490,7 @@ fn apply_trigger(t: &mut Target, g: &Trigger) -> Option<usize> {
 			0 => c.crl.idp = Some(IdpSpec { uris: vec![g.text.clone()], scope: None }),
 			_ => c.issuer.spec.crl_dps.push(vec![g.text.clone()]),
 		},
-		(Target::Crl(c), TriggerClass::Oid) => c.issuer.spec.dn.0.push((DnTypeSpec::Custom(g.oid.clone()), DnValueSpec { kind: StrKind::Utf8, text: "x".into() })),
+		(Target::Crl(c), TriggerClass::Oid) => c.issuer.spec.dn.0.push((DnTypeSpec::Custom(g.oid.clone()), DnValueSpec::new(StrKind::Utf8, "x"))),
 		(Target::Crl(c), TriggerClass::Year) => match g.site % 4 {
 			0 => c.crl.this_update = g.time,
 			1 => c.crl.next_update = g.time,
